@@ -117,4 +117,73 @@ theorem C15_let_tables_unchanged (env : Env) (fuel : Nat) (cnf : Cnf) (b : Block
   | value r => simp [Frame.sim] at hg
   | params ps => simp [Frame.sim] at hg
 
+/-! ### A variable at the head of a query -/
+
+/-- where retrieval continues after a variable head: the `[*]` the parser inserts after a variable is skipped -/
+def afterVariable (rest : List QueryPart) : Nat :=
+  match rest with
+  | .allIndices _ :: _ => 2
+  | _ => 1
+
+theorem C15_variable_head_each_value (env : Env) (fuel : Nat) (name : Str) (rest : List QueryPart)
+    (current : PV) (conv : Option Nat) :
+    queryRetrieval env (fuel + 1) 0 (.key ('%' :: name) :: rest) current conv =
+      (do
+        let retrieved ← resolveVariable env fuel name
+        let rows ← retrieved.mapM fun each =>
+          match each with
+          | .unresolved ur => pure [QR.unresolved ur]
+          | .literal v | .resolved v =>
+            if afterVariable rest < rest.length + 1 then
+              withValueScope v (queryRetrieval env fuel (afterVariable rest) (.key ('%' :: name) :: rest) v conv)
+            else pure [each]
+        pure rows.flatten) := by
+  simp only [queryRetrieval]
+  have key : ∀ (f g : QR → M (List QR)), (∀ e, f e = g e) →
+      (do let retrieved ← resolveVariable env fuel name
+          let rows ← retrieved.mapM f
+          pure rows.flatten) =
+      (do let retrieved ← resolveVariable env fuel name
+          let rows ← retrieved.mapM g
+          pure rows.flatten) := by
+    intro f g h
+    have : f = g := funext h
+    rw [this]
+  cases rest with
+  | nil =>
+    simp only [QueryPart.isVariable, QueryPart.variable, afterVariable, Option.isSome_some, beq_self_eq_true, Bool.and_self,
+      ↓reduceIte, Option.getD_some, List.length_cons, List.length_nil]
+    apply key
+    intro e; cases e <;> simp
+  | cons p ps =>
+    cases p <;>
+    · simp only [QueryPart.isVariable, QueryPart.variable, afterVariable, Option.isSome_some, beq_self_eq_true, Bool.and_self,
+        ↓reduceIte, Option.getD_some, List.length_cons]
+      apply key
+      intro e; cases e <;> simp
+
+/-- **a literal variable at the head of a query is transparent**: `%v.rest` evaluates exactly like `rest` evaluated
+    on the literal itself (inside a value scope rooted at it) - for every continuation of the query, every state whose
+    innermost block defines `v` as a literal, every fuel -/
+theorem C15_literal_head_in_place (env : Env) (fuel : Nat) (name : Str) (p : QueryPart) (ps : List QueryPart)
+    (hp : ∀ b, p ≠ .allIndices b) (v : PV) (b : BlockFrame) (fr : List Frame) (current : PV) (conv : Option Nat)
+    (st : St) (hf : st.frames = .block b :: fr) (hl : alLookup name b.lits = some v) :
+    queryRetrieval env (fuel + 2) 0 (.key ('%' :: name) :: p :: ps) current conv st =
+      (withValueScope v (queryRetrieval env (fuel + 1) 1 (.key ('%' :: name) :: p :: ps) v conv)) st := by
+  rw [C15_variable_head_each_value]
+  have ha : afterVariable (p :: ps) = 1 := by
+    cases p <;> simp [afterVariable] <;> exact absurd rfl (hp _)
+  simp only [bind, StateT.bind, C15_literal_variable env fuel name v b fr st hf hl, ha]
+  simp only [List.mapM_cons, List.mapM_nil, bind, StateT.bind, pure, StateT.pure, List.length_cons]
+  have : 1 < ps.length + 1 + 1 := by omega
+  simp only [this, ↓reduceIte]
+  simp only [Outcome.bind]
+  simp only [List.mapM_cons, List.mapM_nil, bind, StateT.bind, pure, StateT.pure]
+  cases withValueScope v (queryRetrieval env (fuel + 1) 1 (.key ('%' :: name) :: p :: ps) v conv) st <;>
+    simp [Outcome.bind]
+
+-- Non-vacuity: a block scope that defines `v` as a literal
+example : ∃ b : BlockFrame, alLookup "v".toList b.lits = some (PV.int Path.root 1) :=
+  ⟨{ root := PV.int Path.root 0, lits := [("v".toList, PV.int Path.root 1)], queries := [], funs := [], memo := [], inProgress := [] }, rfl⟩
+
 end Guard.C15
